@@ -163,6 +163,68 @@ func TestKnownF12(t *testing.T) {
 	}
 }
 
+// TestErrorPathStopsBackgroundWork: an evaluation that failed has returned; what it
+// started must not go on working. A merge operand (they are iterated by goroutines of
+// their own) fails at an early item and has millions of items behind it: shortly after
+// the evaluation returned the counting closure of that operand must have stopped.
+func TestErrorPathStopsBackgroundWork(t *testing.T) {
+	defer evid.R.Flush()
+	shapes := []string{
+		"numbers(5).merge(numbers(4000000).map(e -> if e = 3 then throw(\"x\") else cnt(e)), (a, b) -> a < b).size()",
+		"numbers(4000000).map(e -> if e = 3 then throw(\"x\") else cnt(e)).merge(numbers(5), (a, b) -> a < b).size()",
+		// (only the operand that failed is counted: an operand that did not fail goes on after
+		// the consumer is gone - that is the open finding F12 of the dependency)
+		"numbers(4000000).map(e -> if e = 2 then throw(\"x\") else cnt(e)).merge(numbers(6).map(e -> e * 2), (a, b) -> a < b).reduce((a, b) -> b)",
+		"numbers(4000000).number((i, e) -> if e = 3 then throw(\"x\") else cnt(e)).merge(numbers(7), (a, b) -> a < b).sum()",
+		"numbers(9).multiUse({a: l -> l.merge(numbers(4000000).map(e -> if e = 3 then throw(\"x\") else cnt(e)), (a, b) -> a < b).size(), b: l -> l.size()})",
+	}
+	for _, text := range shapes {
+		f, _, err := pimpl.Generate(text)
+		if err != nil {
+			t.Fatalf("Generate(%s): %v", text, err)
+		}
+		for r := 0; r < 3; r++ {
+			pstate.Reset()
+			if _, err := f.Eval(); err == nil {
+				t.Fatalf("%s: the evaluation must fail", text)
+			}
+			time.Sleep(150 * time.Millisecond)
+			n1 := pstate.Cnt.Load()
+			time.Sleep(100 * time.Millisecond)
+			n2 := pstate.Cnt.Load()
+			c := PipeCase{Text: text, Repeats: 1, Consume: "force"}
+			if n2 > 10000 || n2 != n1 {
+				evid.Fail(t, prop, "errorpath", "", c, "%s failed at its 4th item and returned the error, but its operand was pulled on in the background: %d items 150 ms later, %d items 250 ms later", text, n1, n2)
+			}
+			evid.R.Case(true, fmt.Sprint("errorpath:", text, r), func() any { return map[string]any{"kind": "error path", "text": text, "items_pulled": n2} }, "error_path_of_merge")
+		}
+	}
+	leak.SettleStable(leak.IDs(), time.Second, 200*time.Millisecond)
+}
+
+func replayErrorPath(t *testing.T) {
+	for _, path := range evid.ReplayFiles("errorpath") {
+		var c PipeCase
+		if _, err := evid.ReadFailure(path, &c); err != nil {
+			t.Fatalf("cannot read %s: %v", path, err)
+		}
+		f, _, err := pimpl.Generate(c.Text)
+		if err != nil {
+			t.Fatalf("Generate(%s): %v", c.Text, err)
+		}
+		pstate.Reset()
+		f.Eval()
+		time.Sleep(150 * time.Millisecond)
+		n1 := pstate.Cnt.Load()
+		time.Sleep(100 * time.Millisecond)
+		if n2 := pstate.Cnt.Load(); n2 > 10000 || n2 != n1 {
+			evid.ReplayFailed(t, path, fmt.Sprintf("the operand was pulled on in the background: %d items, then %d", n1, n2))
+		} else {
+			evid.ReplayPassed(path)
+		}
+	}
+}
+
 func replayPipelines(t *testing.T) {
 	for _, path := range evid.ReplayFiles("pipeline") {
 		var c PipeCase
